@@ -67,7 +67,8 @@ fn preludes() -> Vec<(&'static str, Vec<Call>)> {
 
 fn check_align(align: u16, prelude: &(&'static str, Vec<Call>), name_len: usize, large: bool, method: u16, st: &mut Stats, order: u64) {
     st.evals += 1;
-    let content = b"aligned payload bytes 0123456789".to_vec();
+    // a quarter of the alignments get an entry without any content (nothing to read, but still a place where its data would begin)
+    let content = if align % 8 == 1 || align % 8 == 6 { vec![] } else { b"aligned payload bytes 0123456789".to_vec() };
     let name = "n".repeat(name_len.max(1));
     let mut calls = prelude.1.clone();
     let at = calls.len();
@@ -83,8 +84,8 @@ fn check_align(align: u16, prelude: &(&'static str, Vec<Call>), name_len: usize,
     }
     // the same program into a sink that accepts only a few bytes per write call (legal for io::Write): every clause below
     // must hold there too, which is implied by the produced archive being byte-identical
-    if !prelude.0.starts_with("append:") && (matches!(prelude.0, "empty" | "30-byte-entry" | "65500-byte-entry") || align % 64 == 5) {
-        for chunk in [7usize, 4096] {
+    if !prelude.0.starts_with("append:") && (matches!(prelude.0, "empty" | "30-byte-entry") || align % 64 == 5) {
+        for chunk in if prelude.1.iter().any(|c| matches!(c, Call::Write(d) if d.len() > 10_000)) { vec![4096usize] } else { vec![7usize, 4096] } {
             let (res2, bytes2) = exec_chunked(&calls, &[], chunk, 0);
             st.evals += 1;
             if res2 != res || bytes2 != bytes {
@@ -339,10 +340,10 @@ fn check_extra_in(local: &[u8], central: &[u8], variant: u8, large: bool, st: &m
         }
     }
     let cheap = local.len() + central.len() < 300;
-    if ok && ((cheap && order % 8 == 0) || order % 64 == 0) {
+    if ok && what == "record list" && ((cheap && order % 16 == 0) || order % 128 == 0) {
         // (a) a sink that accepts only a few bytes per write call must end up with the same archive
         if !prelude.starts_with("append:") {
-            for chunk in if cheap { vec![1usize, 7, 100] } else { vec![4096usize] } {
+            for chunk in if cheap { vec![1usize, 100] } else { vec![4096usize] } {
                 let (res2, bytes2) = exec_chunked(&calls, &[], chunk, 0);
                 st.evals += 1;
                 if res2 != res || bytes2 != bytes {
@@ -350,6 +351,15 @@ fn check_extra_in(local: &[u8], central: &[u8], variant: u8, large: bool, st: &m
                     st.viol(format!("extra/short-writes-change-archive/{vname}"), format!("{what} ({vname}, large {large}): into a sink accepting {chunk} bytes per write the {} (local {}, central {})", if res2 != res { "call results differ" } else { "archive bytes differ" }, show_x(&want_local), show_x(&want_central)), case(), order);
                     break;
                 }
+            }
+        }
+        // (a') the same calls with every write handed over through Write::write_vectored
+        if !prelude.starts_with("append:") {
+            let (res2, bytes2) = with_vectored_writes(|| exec(&calls, &[]));
+            st.evals += 1;
+            if res2 != res || bytes2 != bytes {
+                ok = false;
+                st.viol(format!("extra/write_vectored-changes-archive/{vname}"), format!("{what} ({vname}, large {large}): with the bytes handed over through write_vectored the {} (local {}, central {})", if res2 != res { "call results differ" } else { "archive bytes differ" }, show_x(&want_local), show_x(&want_central)), case(), order);
             }
         }
         // (b) the archive re-opened for append, an aligned entry added, finished again: the central part is still returned verbatim
